@@ -190,8 +190,83 @@ func main() {
 			ev.Sample(map[string]any{"aux": j.aux, "op": j.op, "set": j.set, "admin": j.admin, "aux_bytes": len(auxes[j.aux])})
 		}
 	})
-	ev.Rule = fmt.Sprintf("%d auxiliary-data shapes (none, 1/3 lines, no final newline, CRLF, binary with NUL, blank lines, record-like lines, one 200 KiB line with/without newline, 4096/4097 bytes) x %d operations x 4 parameter sets (two cheap ones, record lines of >4 KiB and >64 KiB) x user/admin on a 3-user store; operation upgrade = same password re-written under another default, as the agent does after a login with an upgradeable hash; byte comparison of the target's auxiliary data, its record line (set-admin) and all other files", len(auxes), len(ops))
+	if as == "C15" {
+		genFailures(ev, root)
+	}
+	ev.Rule = fmt.Sprintf("%d auxiliary-data shapes (none, 1/3 lines, no final newline, CRLF, binary with NUL, blank lines, record-like lines, one 200 KiB line with/without newline, 4096/4097 bytes) x %d operations x 4 parameter sets (two cheap ones, record lines of >4 KiB and >64 KiB) x user/admin on a 3-user store; operation upgrade = same password re-written under another default, as the agent does after a login with an upgradeable hash; byte comparison of the target's auxiliary data, its record line (set-admin) and all other files; add/update/init failing because the default set cannot generate a hash (injected hasher, scrypt r*p too large) x work area present/absent leave the directory byte-identical", len(auxes), len(ops))
 	ev.Finish()
+}
+
+// failHasher: a default parameter set whose hash generation fails (as scrypt does for
+// parameters its library refuses): a semantic failure without any I/O error.
+type failHasher struct{ store.Hasher }
+
+func (failHasher) Generate(password string) (string, error) {
+	return "", fmt.Errorf("hash generation failed")
+}
+
+// genFailures: add / update / init that fail because the hash cannot be generated leave the
+// directory byte-identical (an empty work area may appear), on trees with and without .tmp.
+func genFailures(ev *verifev.Run, root string) {
+	for _, withTmp := range []bool{true, false} {
+		for _, kind := range []string{"injected-hasher", "scrypt-r*p-too-large"} {
+			for _, op := range []string{"add-user", "add-admin", "update", "update-admin", "init"} {
+				dir := filepath.Join(root, "genfail")
+				os.RemoveAll(dir)
+				os.MkdirAll(dir, 0700) //nolint:errcheck
+				good := verifx.CheapDir(dir, 1)
+				if op != "init" {
+					must(good.AddUser("root", "rootpw", true))
+					must(good.AddUser("t", "tpw", false))
+					tf := filepath.Join(dir, "t.user")
+					b, _ := os.ReadFile(tf)
+					must(os.WriteFile(tf, append(b, "aux of t\n"...), 0600))
+				}
+				if withTmp {
+					os.MkdirAll(filepath.Join(dir, ".tmp"), 0700) //nolint:errcheck
+				} else {
+					os.RemoveAll(filepath.Join(dir, ".tmp"))
+				}
+				d := verifx.CheapDir(dir, 7)
+				if kind == "injected-hasher" {
+					d.Params[7] = failHasher{d.Params[1]}
+				} else {
+					h, err := store.NewScryptAuthHasher(&store.ScryptAuthParams{HmacKeyBase64: verifx.HmacKeyB64, Cost: 1, R: 1 << 20, P: 1 << 12})
+					if err != nil {
+						continue // refused at construction: nothing to test
+					}
+					d.Params[7] = h
+				}
+				before := verifx.Snap(dir)
+				var err error
+				switch op {
+				case "add-user":
+					err = d.AddUser("n", "npw", false)
+				case "add-admin":
+					err = d.AddUser("n", "npw", true)
+				case "update":
+					err = d.UpdateUser("t", "newpw")
+				case "update-admin":
+					err = d.UpdateUser("root", "newpw")
+				case "init":
+					err = d.Init("root", "rootpw")
+				}
+				ev.Add("evaluations", 1)
+				ev.Distinct(fmt.Sprintf("genfail|%s|%s|%v", kind, op, withTmp))
+				rp := map[string]any{"op": op, "failing": kind, "with_tmp": withTmp}
+				if err == nil {
+					ev.Violation("hash-generation-failure-ignored:"+op, fmt.Sprintf("[%s, %s, .tmp present %v] the operation reports success although the hash could not be generated", kind, op, withTmp), rp)
+					continue
+				}
+				after := verifx.Snap(dir)
+				delete(before, ".tmp/")
+				delete(after, ".tmp/")
+				if !after.Equal(before) {
+					ev.Violation("failed-op-changed-store:"+op+":hash-generation", fmt.Sprintf("[%s, %s, .tmp present %v] the operation reports failure (%v) but the directory changed: %s", kind, op, withTmp, err, before.Diff(after)), rp)
+				}
+			}
+		}
+	}
 }
 
 func viol0(ev *verifev.Run, aux, op string, set uint, admin bool, kind, msg string) {
